@@ -16,3 +16,40 @@ package types
 //@ trusted
 //@ ensures power == idxPower(key) && addr == idxAddr(key)
 //@ axiom idxOrder: forall a Bz, b Bz, p Addr :: hasprefix(a, LocksByPowerIndexKey(p)) && hasprefix(b, LocksByPowerIndexKey(p)) && bzlt(a, b) ==> idxPower(a) <= idxPower(b)
+
+// ---- assumed contracts of the keepers the restake module depends on ------------------------------------
+//@ spec delegatorBonded(o OtherState, a Addr) Int uninterpreted
+//@ func (k StakingKeeper) GetDelegatorBonded
+//@ trusted
+//@ ensures err == nil ==> result == delegatorBonded(Other, delegator)
+//@ func (k BankKeeper) SendCoinsFromAccountToModule
+//@ trusted
+//@ modifies Bank
+//@ ensures err == nil ==> Bank == bankA2M(old(Bank), senderAddr, recipientModule, amt)
+//@ ensures err != nil ==> Bank == old(Bank)
+//@ func (k BankKeeper) SendCoinsFromModuleToAccount
+//@ trusted
+//@ modifies Bank
+//@ ensures err == nil ==> Bank == bankM2A(old(Bank), senderModule, recipientAddr, amt)
+//@ ensures err != nil ==> Bank == old(Bank)
+//@ spec balancesOf(b BankState, a Addr) sdk.Coins uninterpreted
+//@ func (k BankKeeper) GetAllBalances
+//@ trusted
+//@ ensures result == balancesOf(Bank, addr)
+//@ spec delegationOf(o OtherState, d Addr, v Addr) stakingtypes.Delegation uninterpreted
+//@ spec validatorOf(o OtherState, v Addr) stakingtypes.Validator uninterpreted
+//@ func (k StakingKeeper) GetDelegation
+//@ trusted
+//@ ensures err == nil ==> result == delegationOf(Other, delAddr, valAddr)
+//@ func (k StakingKeeper) GetValidator
+//@ trusted
+//@ ensures err == nil ==> result == validatorOf(Other, addr)
+//@ spec modAcc(o OtherState, name Str) sdk.ModuleAccountI uninterpreted
+//@ func (k AccountKeeper) GetModuleAccount
+//@ trusted
+//@ ensures result == modAcc(Other, name)
+//@ func (k AccountKeeper) SetModuleAccount
+//@ trusted
+//@ modifies Other
+//@ func (p Params) Validate
+//@ trusted
